@@ -12,4 +12,6 @@ def run(tier, replay=None):
         crate = mir.load(cfg)
         c05.run(rep, crate, cfg)
         dec.c01_object(rep, crate, cfg)
+        # every decode path puts symbol i through the un-interleaving into position i (C01-R3 assemble-by-index)
+        dec.c01_solve(rep, crate, cfg, dec.roles_sbd(crate))
     return rep.finish("other", "partitioning and layout skeleton", "./check C05 %s" % tier)
